@@ -5,7 +5,7 @@
    statement of the documented layouts and is tied to the code by differential execution on all 45 formats).
    Every theorem below quantifies over the whole input domain of the conversion it is about. *)
 From Coq Require Import ZArith List Bool Lia.
-From DDSV Require Import model.Float model.Convert spec.SpecNum proofs.ConvertProofsA proofs.ConvertProofsB proofs.ConvertProofsC proofs.ConvertProofsD.
+From DDSV Require Import model.Float model.Convert spec.SpecNum proofs.ConvertProofsA proofs.ConvertProofsB proofs.ConvertProofsC proofs.ConvertProofsD proofs.YuvProofs.
 Import ListNotations.
 Local Open Scope Z_scope.
 
@@ -53,11 +53,19 @@ Proof. exact fp16_ok. Qed.
 Theorem C04_fp16_n16_refuted : forall x, In x f11_codes -> small_ok 10 true fp16_n16 65535 x = false.
 Proof. exact fp16_n16_refuted. Qed.
 
+(* BT.601 limited range on the grey axis: 8-bit luma with neutral chroma decodes to the nearest 8-bit value of
+   clamp((y - 16) / 219); the 10- and 16-bit formats miss nominal white (finding F16) *)
+Theorem C04_yuv8_grey_axis : forall y, 0 <= y < 256 -> exists g, yuv 8 0 y 128 128 = [g; g; g] /\ nearest g (Z.min 219 (Z.max 0 (y - 16)) * 255) 219.
+Proof. exact yuv8_grey_axis. Qed.
+Theorem C04_yuv_wide_white_refuted :
+  yuv 10 0 940 512 512 = [254; 254; 254] /\ yuv 10 1 940 512 512 = [65343; 65343; 65343] /\ yuv 16 0 60160 32768 32768 = [254; 254; 254].
+Proof. exact yuv_wide_white_refuted. Qed.
+
 Example C04_ex_f11 : fp16_n16 14337 = 32800 /\ nearest 32799 (1025 * 65535) 2048.
 Proof. exact fp16_n16_witness. Qed.
 Example C04_ex_unorm : In (n5_n8, 5, 255) unorm_cases /\ n5_n8 31 = 255 /\ n5_n8 16 = 132.
 Proof. split; [cbn; tauto|split; reflexivity]. Qed.
 
 Definition C04_all := (C04_unorm_nearest, C04_snorm8_nearest, C04_snorm16_nearest, C04_xr_nearest, C04_unorm_f32, C04_n16_f32, C04_s16_f32,
-  C04_small_floats, C04_rgb9995, C04_fp16, C04_fp16_n16_refuted).
+  C04_small_floats, C04_rgb9995, C04_fp16, C04_fp16_n16_refuted, C04_yuv8_grey_axis, C04_yuv_wide_white_refuted).
 Redirect "props/C04.assumptions" Print Assumptions C04_all.
